@@ -40,6 +40,7 @@ import itertools
 import logging
 import math
 import random
+import re
 import warnings
 
 from bounded._api import Bounded, REPLAY_HEADER
@@ -243,6 +244,34 @@ def check_state(cls, value, level):
     """Drive the real code: schema of the class/instance, serialized state, verdicts.
     -> list of (clause, kind, detail); [] when everything holds; None when out of scope."""
     src = cls if level == 'class' else cls(x=value)
+    return check_src(src)
+
+
+def check_history(cls, ops, level):
+    """Apply a history of value assignments, then check the resulting state like check_state.
+    ops: list of (route, value) with route 'kwarg' (constructor argument, must come first),
+    'inst' (instance attribute), 'update' (inst.param.update), 'class' (class attribute).
+    level: 'class' -> schema/state of the class, 'instance' -> of the instance."""
+    inst = None
+    for route, v in ops:
+        if route == 'kwarg':
+            inst = cls(x=v)
+            continue
+        if route == 'class':
+            cls.x = v
+            continue
+        if inst is None:
+            inst = cls()
+        if route == 'inst':
+            inst.x = v
+        else:
+            inst.param.update(x=v)
+    if level == 'instance' and inst is None:
+        inst = cls()
+    return check_src(cls if level == 'class' else inst)
+
+
+def check_src(src):
     try:
         text = src.param.serialize_parameters()
         js = json.loads(text)
@@ -259,7 +288,8 @@ def check_state(cls, value, level):
     if note: out.append(('note', 'xcheck', note))
     if ok2 is False:
         out.append(('C16/valid-state/accepted', 'rejected',
-                    'serialized %s rejected by schema[x]=%r: %s' % (text, schema.get('x'), '; '.join(errs))))
+                    'serialized %s rejected by schema[x]=%r: %s [failing-keywords=%s]'
+                    % (text, schema.get('x'), '; '.join(errs), failing_keywords(schema.get('x'), js.get('x')))))
     # the per-parameter route must agree with the object route
     ps = src.param.objects('existing')['x'].schema()
     ok3, errs3, note = validates(ps, js['x'])
@@ -268,6 +298,24 @@ def check_state(cls, value, level):
         out.append(('C16/valid-state/accepted', 'rejected',
                     'serialized value %r rejected by Parameter.schema() %r: %s' % (js['x'], ps, '; '.join(errs3))))
     return out
+
+
+def failing_keywords(schema, j):
+    """which top-level keywords of the parameter's schema reject the value (sorted, '+'-joined)"""
+    if not isinstance(schema, dict):
+        return '?'
+    core = {k: v for k, v in schema.items() if k not in ANNOTATIONS}
+    if (j is not None and set(core) == {'anyOf'} and isinstance(core['anyOf'], list) and len(core['anyOf']) == 2
+            and core['anyOf'][1] == {'type': 'null'} and isinstance(core['anyOf'][0], dict)):
+        return failing_keywords(core['anyOf'][0], j)       # look through the allow_None wrapper
+    bad = []
+    for k, v in schema.items():
+        try:
+            if not accepts({k: v}, j):
+                bad.append(k)
+        except Exception:
+            bad.append(k + '?')
+    return '+'.join(sorted(bad)) or '?'
 
 
 def check_probe(cls, probe):
@@ -318,6 +366,7 @@ in_bounds = _CORE["in_bounds"]
 check_state = _CORE["check_state"]
 check_probe = _CORE["check_probe"]
 check_instance_edit = _CORE["check_instance_edit"]
+check_history = _CORE["check_history"]
 HAVE_JSONSCHEMA = _CORE["jsonschema"] is not None
 
 
@@ -359,11 +408,13 @@ sys.exit(0)
 '''
 
 
-def make_replay(clause, witness, decl, kind, value_src=None, level=None, probe_src=None, edit=None):
-    head = REPLAY_HEADER.format(prop="C16", name="replay_c16.py", clause=clause, witness=witness)
+def make_replay(clause, witness, decl, kind, value_src=None, level=None, probe_src=None, edit=None, ops_src=None):
+    head = REPLAY_HEADER.format(prop="C16", name="replay_c16.py", clause=clause, witness=witness).replace("sys.path.insert(0, '/repo')", "import os\nsys.path.insert(0, os.environ.get('PYVC_REPO', '/repo'))      # (PYVC_REPO: a scratch copy of the library under test)")
     head = head.replace("PYTHONPATH=/repo /venv/bin/python",
                         "PYTHONPATH=/repo python3-vt   (or /venv/bin/python: built-in validator)")
-    if edit is not None:
+    if ops_src is not None:
+        call = "res = check_history(C16Case, %s, %r)" % (ops_src, level)
+    elif edit is not None:
         call = "res = check_instance_edit(C16Case, %r, %r, value=%s, probe=%s)" % (edit[0], edit[1], value_src, probe_src)
     elif probe_src is not None:
         call = "res = check_probe(C16Case, %s)" % probe_src
@@ -387,10 +438,14 @@ def numeric_grid(tname, quick):
     """-> iterable of (dim, decl_template(default_src), cfgkey, bounds, incl, allow_None)"""
     if tname == "Number":
         bgrid = [None, (0, 10), (-1.5, 2.5), (0, None), (None, 10), (None, None), (3, 3), (0.1, 0.2),
-                 (-2 ** 60, 2 ** 60), (None, -0.5), (1e-300, None)]
+                 (-2 ** 60, 2 ** 60), (None, -0.5), (1e-300, None), (0, 2.5), (0.5, 10), (-10, -0.5)]
     else:
         bgrid = [None, (0, 10), (-5, 5), (0, None), (None, 10), (None, None), (3, 3), (-2 ** 70, 2 ** 70),
-                 (None, -1), (7, 8)]
+                 (None, -1), (7, 8),
+                 # NON-INTEGRAL float hard bounds of an Integer: the integers strictly between them are
+                 # the valid states, the integers next to them on the outside are out of bounds
+                 (0, 2.5), (0.5, 10), (-10, -0.5), (-2.5, 2.5), (0.5, None), (None, 2.5), (None, -0.5),
+                 (-0.5, 0.5)]
     combos = [(b, inc, an) for b in bgrid for inc in (INCL if b is not None else INCL[:1]) for an in NONE_OPTS]
     if not quick:
         # thorough: 150 further pseudo-random bounds shapes per type (fixed generator, not seed dependent)
@@ -399,6 +454,9 @@ def numeric_grid(tname, quick):
             if tname == "Integer":
                 lo = rnd.choice([rnd.randint(-1000, 1000), rnd.randint(-2 ** 65, 2 ** 65), 0])
                 hi = lo + rnd.choice([0, 1, 2, rnd.randint(3, 10 ** 6)])
+                if _ >= 100:         # the last 50 shapes: non-integral float bounds
+                    lo = rnd.randint(-1000, 1000) + rnd.choice([0, 0.5, 0.25, -0.75])
+                    hi = lo + rnd.choice([0.5, 1, 1.5, 2.25, rnd.randint(3, 10 ** 4) + 0.5])
             else:
                 lo = rnd.choice([rnd.randint(-1000, 1000), rnd.uniform(-1e3, 1e3), rnd.uniform(-1, 1) * 1e-300,
                                  rnd.uniform(-1, 1) * 1e300, 0.0])
@@ -440,7 +498,13 @@ def number_values(tname, b, inc):
             add(float(hi), "at-hi")
             add(math.nextafter(float(hi), -math.inf), "near-hi")
     if lo is not None and hi is not None:
-        add((lo + hi) // 2 if isint else (lo + hi) / 2, "interior")
+        add(int((lo + hi) // 2) if isint else (lo + hi) / 2, "interior")
+    # the integers around each bound (equal to the bound itself when it is integral)
+    for bnd, side in ((lo, "lo"), (hi, "hi")):
+        if bnd is not None and math.isfinite(bnd) and abs(bnd) < 2 ** 52:
+            fl, ce = math.floor(bnd), math.ceil(bnd)
+            for k in sorted({fl - 1, fl, ce, ce + 1}):
+                add(k, ("at-" if k == bnd else "near-") + side)
     for v in ([0, 1, -1, 5, 2 ** 62, -2 ** 62] if isint else
               [0, 1, -1, 5, 0.5, 0.15, -0.75, 1e308, -1e308, 5e-324, 1e-299, 2 ** 62, -2.0 ** 62]):
         add(v, "interior" if (lo is not None and hi is not None) else "free")
@@ -467,6 +531,15 @@ def number_probes(tname, b, inc):
         cands += [(hi, "at-hi-exclusive"), (float(hi), "at-hi-exclusive"), (hi + 1, "above-hi"),
                   (math.nextafter(float(hi), math.inf), "above-hi"), (float(hi) + 0.5, "above-hi"),
                   (1e308, "above-hi"), (2 ** 80, "above-hi")]
+    for bnd, below, above in ((lo, "below-lo", "at-lo-exclusive"), (hi, "at-hi-exclusive", "above-hi")):
+        # the integers around each bound: an Integer schema must reject those outside
+        if bnd is not None and math.isfinite(bnd) and abs(bnd) < 2 ** 52:
+            fl, ce = math.floor(bnd), math.ceil(bnd)
+            for k in sorted({fl - 1, fl, ce, ce + 1}):
+                if bnd is lo:
+                    cands.append((k, "at-lo-exclusive" if k == bnd else "below-lo"))
+                else:
+                    cands.append((k, "at-hi-exclusive" if k == bnd else "above-hi"))
     seen, out = set(), []
     for v, tag in cands:
         k = (type(v).__name__, v)
@@ -592,6 +665,62 @@ def other_configs():
     return out
 
 
+JSON_KIND = {int: "integer", float: "number", str: "string", type(None): "null", bool: "boolean"}
+
+
+def admitted_configs(quick):
+    """Selectors with check_on_set=False whose value is admitted AFTER the declaration.
+    -> list of (type, style, decl, ops_src, level, vclass)
+    style  'list' / 'dict' (how the objects were declared)
+    ops    history of assignments (route, value) -- see check_history in CORE_SRC
+    vclass 'admitted-sametype'  every admitted value has the JSON type of some declared object
+           'admitted-newtype'   some admitted value has a JSON type no declared object has
+           'declared'           the final value is a declared object (something else was admitted on the way)
+    """
+    out = []
+    decls = [("list", "[1, 2]", (int,)), ("dict", "{'one': 1, 'two': 2}", (int,)),
+             ("list", "['a', 'b']", (str,)), ("dict", "{'A': 'a', 'B': 'b'}", (str,)),
+             ("list", "[1, 'a', 2.5]", (int, str, float)), ("dict", "{'one': 1, 'A': 'a', 'h': 2.5}", (int, str, float)),
+             ("dict", "{'one': 1, 'none': None}", (int, type(None)))]
+    admit = ["99", "'new'", "2.5", "None"]
+    for sel in ("Selector", "ObjectSelector"):
+        for style, osrc, types in decls:
+            first = repr(list(_ev(osrc).values())[0] if style == "dict" else _ev(osrc)[0])
+            for an in NONE_OPTS:
+                decl = "param.%s(default=%s, objects=%s, check_on_set=False%s)" % (
+                    sel, first, osrc, ", allow_None=True" if an else "")
+
+                def vc(*srcs, final=None):
+                    if final is not None and final == first:
+                        return "declared"
+                    return ("admitted-sametype" if all(type(_ev(x)) in types for x in srcs)
+                            else "admitted-newtype")
+                for a in admit:
+                    for route, level in (("kwarg", "instance"), ("inst", "instance"), ("update", "instance"),
+                                         ("class", "class"), ("class", "instance")):
+                        out.append((sel, style, decl, "[(%r, %s)]" % (route, a), level, vc(a)))
+                    # admitted, then back to a declared object: the admitted one stays allowed
+                    out.append((sel, style, decl, "[('inst', %s), ('inst', %s)]" % (a, first), "instance", vc(a, final=first)))
+                    out.append((sel, style, decl, "[('class', %s), ('class', %s)]" % (a, first), "class", vc(a, final=first)))
+                for a, b2 in itertools.permutations(admit, 2):
+                    out.append((sel, style, decl, "[('inst', %s), ('inst', %s)]" % (a, b2), "instance", vc(a, b2)))
+                    out.append((sel, style, decl, "[('kwarg', %s), ('class', %s)]" % (a, b2), "instance", vc(a, b2)))
+                    out.append((sel, style, decl, "[('class', %s), ('class', %s)]" % (a, b2), "class", vc(a, b2)))
+    # ListSelector: lists naming unknown objects (also the same unknown object twice, known+unknown)
+    for style, osrc, types in decls[:2] + decls[4:6]:
+        known = repr(list(_ev(osrc).values())[0] if style == "dict" else _ev(osrc)[0])
+        for an in NONE_OPTS:
+            decl = "param.ListSelector(default=[%s], objects=%s, check_on_set=False%s)" % (
+                known, osrc, ", allow_None=True" if an else "")
+            for a in admit[:3]:
+                cls_ = "admitted-sametype" if type(_ev(a)) in types else "admitted-newtype"
+                for lst in ("[%s]" % a, "[%s, %s]" % (known, a), "[%s, %s]" % (a, a), "[%s, %s, %s]" % (a, known, a)):
+                    for route, level in (("kwarg", "instance"), ("inst", "instance"), ("class", "class")):
+                        out.append(("ListSelector", style, decl, "[(%r, %s)]" % (route, lst), level, cls_))
+                out.append(("ListSelector", style, decl, "[('inst', [%s]), ('inst', [%s])]" % (a, known), "instance", "declared"))
+    return out
+
+
 def value_tags(v):
     tags = set()
 
@@ -636,7 +765,13 @@ def _run(tier, seed):
                "XYCoordinates/Range(5 bounds x 4 inclusivity)/Date/CalendarDate/List(13 item types x 3 bounds)/Dict/"
                "Selector+ObjectSelector(9 object sets x check_on_set)/ListSelector(5 object sets)/ClassSelector(12 "
                "class_ values) x allow_None x 1-8 valid values x {class,instance}; instance-level edit of the bounds "
-               "(3 shapes x 4 inclusivity); thorough adds 150 pseudo-random bounds shapes per numeric type"))
+               "(4 shapes x 4 inclusivity); Integer additionally 9 NON-INTEGRAL float bounds shapes (Number 3 more) with "
+               "the integers floor-1..ceil+1 around each bound as valid values / out-of-bound probes; "
+               "Selector/ObjectSelector/ListSelector(check_on_set=False, objects declared as list or dict, 7 object "
+               "sets x allow_None) with values admitted AFTER the declaration (same / new JSON type; constructor, "
+               "instance, update, class route; histories of 1-2 admissions, back to a declared object; lists naming "
+               "an unknown object once / twice / mixed with known ones), quick: two-admission histories 1-in-3; "
+               "thorough adds 150 pseudo-random bounds shapes per numeric type (Integer: 50 of them non-integral)"))
     if not HAVE_JSONSCHEMA:
         B.note("jsonschema not importable in this interpreter: verdicts come from the built-in draft-07 reading "
                "only (run under python3-vt for the cross-validated verdicts)")
@@ -747,7 +882,7 @@ def _run(tier, seed):
                 if len(B.samples) < 3 and b is not None and b[0] is not None:
                     B.sample({"type": tname, "decl": decl, "valid_values": srcs[:8], "probes": [r(p) for p, _ in probes][:8]})
         # per-instance edit of the bounds: the instance schema must follow the instance Parameter
-        for b, inc in itertools.product([(0, 10), (None, 3), (2, None)], INCL):
+        for b, inc in itertools.product([(0, 10), (None, 3), (2, None), (0.5, 2.5)], INCL):
             decl = "param.%s(default=2)" % tname
             cls = make_class(decl)
             dim = "instance-bounds-edit"
@@ -772,6 +907,41 @@ def _run(tier, seed):
         state_cases(tname, dim, template, vals)
         if len(B.samples) < 6 and tname in ("List", "Selector", "Range"):
             B.sample({"type": tname, "dim": dim, "decl": template, "values": vals})
+
+    # ---------------------------------------------------------------- values admitted after the declaration
+    adm = admitted_configs(tier == "quick")
+    if tier == "quick":
+        B.exhaustive = False
+        # every single-admission history; the two-admission histories on a 1-in-3 slice chosen by seed
+        adm = [c for i, c in enumerate(adm) if c[3].count("(") - 1 == 1 or (i + seed) % 3 == 0]
+    for tname, style, decl, ops_src, level, vcls in adm:
+        try:
+            cls = make_class(decl)
+            ops = _ev(ops_src)
+        except Exception:
+            skipped["invalid-declaration"] += 1
+            continue
+        B.case(key=("admitted", decl, ops_src, level))
+        try:
+            res = check_history(cls, ops, level)
+        except Unser:
+            skipped["no-schema-support"] += 1
+            continue
+        except (ValueError, TypeError):
+            skipped["invalid-declaration"] += 1      # history rejected by the validator: not a valid state
+            continue
+        B.checked("C16/schema/wellformed")
+        B.checked("C16/valid-state/accepted")
+        if res is None:
+            skipped["not-serializable"] += 1
+            continue
+        for clause, kind, detail in res:
+            # the schema keyword(s) rejecting the state are part of the witness: different defects of the
+            # same configuration class stay apart
+            m = re.search(r"\[failing-keywords=([^\]]*)\]", detail)
+            tail = "failing=%s decl=%s ops=%s level=%s" % (m.group(1) if m else "-", decl, ops_src, level)
+            handle([(clause, kind, detail)], tname, "objects=%s+admitted" % style,
+                   vcls + ("/" + m.group(1) if m else ""), tail, dict(decl=decl, ops_src=ops_src, level=level))
 
     B.note("skipped (outside the statement): %r" % (skipped,))
     B.notes = sorted(set(B.notes))
